@@ -30,6 +30,8 @@ def children(e):
             if "guard" in a:
                 yield a["guard"]
             yield a["body"]
+    if k == "format":
+        yield e["raw"]          # the expansion (it contains the argument expressions): scans over a body see what they saw before the resugaring
 
 
 def walk(e):
@@ -131,6 +133,10 @@ def resugar(e):
                     return {"k": "block", "stmts": [{"k": "semi", "e": wh}], "e": leave, "ln": e.get("ln"), "ty": e.get("ty")}
         except (KeyError, IndexError, TypeError):
             pass
+    if k == "call" and e["f"].get("k") == "path" and e["f"].get("def") == "std::hint::must_use" and "format" in (e["f"].get("mac") or []):
+        fm = _format_call(e)
+        if fm is not None:
+            return fm
     mac = e.get("mac")
     if mac:
         if "vec" in mac and k in ("call", "mcall"):
@@ -149,6 +155,68 @@ def resugar(e):
             if pm in mac and k in ("call", "mcall", "block", "match"):
                 return {"k": "panic", "name": pm, "ln": e.get("ln"), "ty": e.get("ty")}
     return e
+
+
+def _format_call(e):
+    """`format!("..{}..", a, b)` as {"k": "format", "parts": [["lit", text] | ["arg", expr, "display"|"debug"]]}: the expansion's argument tuple, its
+    `Argument::new_*` array and the byte-encoded template (length-prefixed literals, 0xC0 = next argument with default formatting, 0 = end) are read back.
+    Anything else in the template (width, precision, positional arguments) leaves the expansion as it is."""
+    import re as _re
+    try:
+        inner = e["args"][0]
+        while inner.get("k") == "block" and not inner["stmts"] and "e" in inner:
+            inner = inner["e"]
+        if not (inner.get("k") == "call" and inner["f"].get("def") in ("std::fmt::format", "alloc::fmt::format")):
+            return None
+        b = inner["args"][0]
+        if b.get("k") != "block" or len(b["stmts"]) != 2:
+            return None
+        tup, arr_ = b["stmts"][0]["init"], b["stmts"][1]["init"]
+        if tup.get("k") != "tup" or arr_.get("k") != "array":
+            return None
+        tail = b["e"]
+        while tail.get("k") == "block" and not tail["stmts"] and "e" in tail:
+            tail = tail["e"]
+        if not (tail.get("k") == "call" and tail["f"].get("def", "").startswith("std::fmt::Arguments") and tail["f"]["def"].endswith("::new")):
+            return None
+        lit = tail["args"][0]
+        while lit.get("k") in ("ref", "block") and "e" in lit:
+            lit = lit["e"]
+        if not (lit.get("k") == "lit" and str(lit.get("v", "")).startswith("ByteStr([")):
+            return None
+        bs = [int(x) for x in _re.findall(r"\d+", lit["v"].split("]")[0])]
+        args = []
+        for a in arr_["es"]:
+            if not (a.get("k") == "call" and a["f"].get("def", "").startswith("core::fmt::rt::Argument") and a["args"][0].get("k") == "field"):
+                return None
+            kind = a["f"]["def"].rsplit("::", 1)[-1]
+            if kind not in ("new_display", "new_debug"):
+                return None
+            x = tup["es"][int(a["args"][0]["name"])]
+            while x.get("k") == "ref":
+                x = x["e"]
+            args.append((x, kind[4:]))
+        parts, i, nxt = [], 0, 0
+        while i < len(bs):
+            c = bs[i]
+            if c == 0:
+                break
+            if c == 192:
+                if nxt >= len(args):
+                    return None
+                parts.append(["arg", args[nxt][0], args[nxt][1]])
+                nxt += 1
+                i += 1
+            elif c < 128:
+                parts.append(["lit", bytes(bs[i + 1:i + 1 + c]).decode("utf-8", "replace")])
+                i += 1 + c
+            else:
+                return None
+        if nxt != len(args):
+            return None
+        return {"k": "format", "parts": parts, "ln": e.get("ln"), "ty": "std::string::String", "raw": e}
+    except (KeyError, IndexError, TypeError, ValueError):
+        return None
 
 
 def _rotate_loop(e):
